@@ -15,7 +15,7 @@ EXPLANATION = (
     "prev-hash oracle is chain_index.get(height-1).block_hash whose provenance is the LevelDB key, the "
     "trimmed index keeps start-1, the eight genesis constants equal the published hashes and reach the "
     "comparison unchanged; (fail) the Err edge of the fetch in the driver exits non-zero and never reaches "
-    "on_complete. The merkle-tree arithmetic itself (utils::merkle_root) is value-level and not decided.")
+    "on_complete. (merkle) the shape of utils::merkle_root is the reference algorithm: pair hash sha256d(left||right) over chunks of 2 of the current level, odd levels completed with sha256d(last||last), iterate while more than one hash remains, result = the single remaining hash (idiom match; SHA-256 itself is trusted).")
 RULE = ("instances = comparison sites with edge polarity, gate paths, provenance hops, genesis constants; "
         "non-trivial = polarity/path/constant obligation")
 
@@ -180,6 +180,45 @@ def rule_inputs(ctx):
     ctx.check('inputs', 'prev-oracle=index[height-1]', len(pv) == 1 and [canon(x) for x in v.arg_exprs(pv[0])] == ['self.chain_index', '(a3 - 1)'], v, 'chain_index.get(height - 1)')
 
 
+def rule_merkle(ctx):
+    """shape of utils::merkle_root = the reference algorithm (idiom match; the arithmetic itself is trusted):
+    while more than one hash: pair up left||right, duplicate the last one on odd levels; result = the single hash"""
+    prog = ctx.prog
+    m = prog.one('utils::merkle_root')
+    c0 = prog.one('utils::merkle_root::{closure#0}')
+    c1 = prog.one('utils::merkle_root::{closure#1}')
+    ctx.touch(m, c0, c1)
+    level = 'collect(map(filter(chunks(phi(a1 | loopvar), 2), closure:{closure#0}), closure:{closure#1}))'
+    cur = 'phi(a1 | collect(map(filter(chunks(loopvar, 2), closure:{closure#0}), closure:{closure#1})))'
+    defs = {}
+    for l, ds in m.defs().items():
+        if m.names.get(l) == 'hashes':
+            for d in ds:
+                v = m.rvalue_expr(d[3]) if d[0] == 'assign' else m.call_expr(d[2])
+                defs[canon(v)] = (m.loop_depth(d[1]), util.guards_at(m, d[1]))
+    ctx.check('merkle', 'level=pairs-of-current-level', set(defs) == {'a1', level} and defs.get(level, (0,))[0] == 1, m, 'hashes := %s' % sorted(defs))
+    ctx.check('merkle', 'pair-filter=full-pairs-only', canon(c0.ret_expr()) == '(len(a2) == 2)', c0, 'filter keeps chunks of length 2')
+    ctx.check('merkle', 'pair-hash=sha256d(left||right)', canon(c1.ret_expr()) == 'hash(concat([a2[0], a2[1]]))', c1, 'pair hash = %s' % canon(c1.ret_expr()),
+              bad_detail='pair hash = %s; the Bitcoin merkle node is sha256d(left || right)' % canon(c1.ret_expr()))
+    h1 = [c for c in c1.calls if mir.method_name(c.name) == 'hash']
+    ctx.check('merkle', 'pair-hash-is-sha256d', len(h1) == 1 and 'sha256d::Hash' in h1[0].rfull, c1, h1[0].rfull if h1 else '?')
+    # odd level: push(hash(last || last)) under len % 2 == 1
+    pu = [c for c in m.calls if mir.method_name(c.name) == 'push']
+    last = 'unwrap(last(%s))[RangeFull::RangeFull{}]' % cur
+    okp = len(pu) == 1 and canon(m.op_expr(pu[0].args[1])) == 'hash(concat([%s, %s]))' % (last, last) and \
+        sorted(util.guards_at(m, pu[0].bb)) == sorted(['(len(%s) %% 2) == 1' % cur, '1 < len(%s)' % cur]) and canon(m.op_expr(pu[0].args[0])) == level
+    ctx.check('merkle', 'odd-level-duplicates-last', okp, pu[0] if pu else m, 'odd level: push(sha256d(last || last)) onto the new level',
+              bad_detail='odd levels are not completed with sha256d(last || last): %s under %s' % ([canon(m.op_expr(c.args[1]))[:120] for c in pu], [util.guards_at(m, c.bb)[:2] for c in pu]))
+    # loop condition and result
+    rets = [(canon(m.rvalue_expr(d[3])) if d[0] == 'assign' else canon(m.call_expr(d[2])), util.guards_at(m, d[1])) for d in m.defs().get(0, [])]
+    okr = len(rets) == 1 and rets[0][0].startswith('expect(first(%s)' % cur) and rets[0][1] == ['len(%s) <= 1' % cur]
+    ctx.check('merkle', 'result=single-remaining-hash', okr, m, 'returns first(hashes) once len <= 1')
+    ch = [c for c in m.calls if mir.method_name(c.name) == 'chunks']
+    ctx.check('merkle', 'chunks-of-2-over-current-level', len(ch) == 1 and [canon(a) for a in m.arg_exprs(ch[0])] == [cur, '2'] and '1 < len(%s)' % cur in util.guards_at(m, ch[0].bb), m, 'chunks(2) while len > 1')
+    par = [c for c in m.calls + c1.calls if 'rayon' in c.name]
+    ctx.check('merkle', 'sequential', not par, m, 'no parallel iterator in the merkle computation')
+
+
 def rule_fail(ctx):
     import c10
     before = len(ctx.instances)
@@ -192,9 +231,10 @@ def rule_fail(ctx):
 
 def run(ctx):
     ctx.trusted += ['sha256d of rust-bitcoin', 'utils::merkle_root arithmetic (value-level; one unit test)', 'C02.trim keeps start-1']
-    for r, f in (('gate', rule_gate), ('polarity', rule_polarity), ('inputs', rule_inputs), ('fail', rule_fail)):
+    for r, f in (('gate', rule_gate), ('polarity', rule_polarity), ('inputs', rule_inputs), ('merkle', rule_merkle), ('fail', rule_fail)):
         ctx.guard(r, f)
     ctx.floor('gate', 8)
     ctx.floor('polarity', 7)
     ctx.floor('inputs', 18)
     ctx.floor('fail', 4)
+    ctx.floor('merkle', 8)
